@@ -510,7 +510,7 @@ def _record_view(dag):
     return adj, recs
 
 
-def run_one_history(nodes, cfg, plan, rng, profile, max_polls, scripted_pins=None):
+def run_one_history(nodes, cfg, plan, rng, profile, max_polls, scripted_pins=None, **kw):
     """One history against the real ExecutionGraph + scripted scheduler
     (harness/exec_harness.py); after EVERY poll the real write_status /
     Conductor.get_status pair runs, as Conductor.monitor_study does.
@@ -550,7 +550,7 @@ def run_one_history(nodes, cfg, plan, rng, profile, max_polls, scripted_pins=Non
         out.append(o)
 
     case = XH.run_history(nodes, cfg, rng, profile=profile, max_polls=max_polls, after_poll=after_poll,
-                          root=os.path.join(WORKDIR, "hist_ws"), scripted_pins=scripted_pins)
+                          root=os.path.join(WORKDIR, "hist_ws"), scripted_pins=scripted_pins, **kw)
     pins = XH.pins_of(case)
     res = []
     for k, o in enumerate(out):
@@ -563,22 +563,123 @@ def run_one_history(nodes, cfg, plan, rng, profile, max_polls, scripted_pins=Non
 
 
 def history_polls(rng, nhist):
+    """-> (per-poll cases, per-history cases for the execution-model oracle, statistics).
+    Half of the histories are restart / resubmission heavy: every step scheduled
+    with a restart command and a restart budget, reports drawn from the
+    'timeout' / 'hw' profiles, no cancel requests, many polls -- so that
+    RUNNING -> TIMEDOUT -> (restart) -> RUNNING and RUNNING -> HWFAILURE ->
+    (resubmit) -> RUNNING sequences are common."""
     from harness import exec_harness as XH
-    res, hstat = [], {"histories": 0, "polls": 0, "end": {}, "profile": {}, "submissions": 0}
-    for _ in range(nhist):
-        shape, nodes = XH.gen_graph(rng, nmax=7)
-        cfg = XH.gen_cfg(rng, len(nodes), dry=(rng.random() < 0.05))
+    res, xres = [], []
+    hstat = {"histories": 0, "polls": 0, "end": {}, "profile": {}, "submissions": 0, "restart_submissions": 0,
+             "family": {}, "not_representable_in_model": 0,
+             "polls_with_a_report_after_a_restart_or_resubmission": 0}
+    profiles = sorted(XH.PROFILES)
+    for h in range(nhist):
+        heavy = h % 2 == 0
+        if heavy:
+            shape, nodes = XH.gen_graph(rng, shape=rng.choice(["single", "chain", "fanout", "diamond", "random"]),
+                                        nmax=5)
+            for nd in nodes:
+                nd["scheduled"], nd["has_restart"] = True, rng.random() < 0.85
+                nd["rlimit"] = rng.choice([0, 1, 2, 3, 3]) if nd["has_restart"] else 0
+            cfg = {"throttle": rng.choice([0, 0, 1, 2]), "attempts": rng.choice([1, 1, 2]), "dry": False}
+            profile = rng.choice(["timeout", "hw", "timeout", "hw", "mixed"])
+            kw = {"cancel_p": 0.0, "qerr_p": 0.0, "qnojobs_p": 0.03, "sub_ok_p": 0.95}
+            max_polls = rng.choice([8, 12, 16])
+        else:
+            shape, nodes = XH.gen_graph(rng, nmax=7)
+            cfg = XH.gen_cfg(rng, len(nodes), dry=(rng.random() < 0.05))
+            profile = rng.choice(profiles)
+            kw = {}
+            max_polls = rng.choice([3, 6, 10, 14])
         plan = [rng.choice(PARAM_PLANS) for _ in nodes]
-        profile = rng.choice(sorted(XH.PROFILES))
-        polls, case = run_one_history(nodes, cfg, plan, rng, profile, rng.choice([3, 6, 10, 14]))
+        polls, case = run_one_history(nodes, cfg, plan, rng, profile, max_polls, **kw)
         res.extend(polls)
+        fam = "restart-heavy" if heavy else "general"
+        hstat["family"][fam] = hstat["family"].get(fam, 0) + 1
         hstat["histories"] += 1
         hstat["polls"] += len(polls)
         hstat["end"][case["end"]] = hstat["end"].get(case["end"], 0) + 1
         hstat["profile"][profile] = hstat["profile"].get(profile, 0) + 1
         if polls and polls[-1][1]["subs"]:
             hstat["submissions"] += len(polls[-1][1]["subs"])
-    return res, hstat
+        resub, submitted = set(), set()
+        for p in case["polls"]:
+            if any(x in resub for x, _v in p["reports"]) and p["q"] == "OK":
+                hstat["polls_with_a_report_after_a_restart_or_resubmission"] += 1
+            for e in p["events"]:
+                if e[0] == "submit" and e[4] is not None:
+                    if e[2] == "Restart":
+                        hstat["restart_submissions"] += 1
+                    if e[2] == "Restart" or e[1] in submitted:
+                        resub.add(e[1])
+                    submitted.add(e[1])
+        x = make_xobs(nodes, cfg, case, polls, fam, profile)
+        if x is not None:
+            xres.append(x)
+        else:
+            hstat["not_representable_in_model"] += 1
+    return res, xres, hstat
+
+
+def make_xobs(nodes, cfg, case, polls, fam, profile):
+    """the whole history as a case for ExecRows.xcase_ok, or None when the
+    implementation's run cannot be written as a model observation"""
+    from harness import exec_harness as XH
+    if not (polls and len(polls) == len(case["polls"]) and XH.representable(case)
+            and all(o["error"] is None for _c, o in polls)):
+        return None
+    return ({"stream": polls[-1][0].get("stream", "history"), "shape": "history/" + profile,
+             "poll": len(polls) - 1, "family": fam, "hist": polls[-1][0]["hist"]},
+            {"xlit": "(%s, %s, %s, %s)" % (
+                XH.g_cfg(cfg), XH.g_nodes(nodes),
+                common.g_list([XH.g_pin(p) for p in case["polls"]]),
+                common.g_list([g_parsed(o["parsed"]) for _c, o in polls])),
+             "texts": [o["text"] for _c, o in polls], "error": None})
+
+
+XHEADER_EXTRA = "From MWF Require Import Exec.ExecBase Status.ExecRows.\n"
+XCASE_TY = "ExecRows.xcase"
+
+
+def classify_xhist(ck, tag, xobs):
+    """The State / Job ID / Number Restarts columns after every poll against the
+    execution model run (inside Coq) on the poll inputs the real run saw."""
+    if not xobs:
+        return 0
+    lits = [o["xlit"] for _c, o in xobs]
+    shard = max(10, min(200, -(-len(lits) // max(2, common.NCPU - 2))))
+    hdr = HEADER + XHEADER_EXTRA
+    bad, errs = common.coq_failing(tag, hdr, XCASE_TY, "xcase_ok", lits, shard=shard)
+    for e in errs:
+        ck.mismatch("coqc failed on cases file", None, e[1])
+    for i in bad[:5]:
+        c, o = xobs[i]
+        which = common.coq_eval(tag + "_why", hdr, "xcase_first_bad %s" % o["xlit"])
+        k = None
+        try:
+            inner = which.split("=", 1)[1].split(":")[0]
+            nums = [int(x) for x in inner.replace("[", " ").replace("]", " ").replace(";", " ").split()]
+            k = nums[0] if nums else None
+        except Exception:
+            pass
+        model = ""
+        if k is not None:
+            model = common.coq_eval(tag + "_rows", hdr,
+                                    "let '(cf, g, pins, _) := %s in nth %d (map (fun o : ExecRun.obs => snd (fst o)) "
+                                    "(ExecRun.run cf g (init g) pins)) []" % (o["xlit"], k))
+        c = dict(c)
+        if k is not None:
+            c["poll"] = k
+            c["hist"] = dict(c["hist"], pins=c["hist"]["pins"][:k + 1])
+        ck.violation("after poll %s the State / Job ID / Number Restarts columns of status.csv are not what the "
+                     "reports delivered so far dictate (execution model rows: %s): status.csv=%r"
+                     % (k, " ".join(model.split())[-700:], (o["texts"][k] if k is not None and k < len(o["texts"])
+                                                            else "")[:700]), strip_case(c))
+    return len(xobs)
+
+
 
 
 def g_hcase(o):
@@ -1028,16 +1129,19 @@ def load_corpus_hist():
     return out
 
 
-def replay_history(c):
-    """re-run a stored history (scripted pins) -> [(descr, obs)] for its polls"""
+def replay_history(c, want_x=False):
+    """re-run a stored history (scripted pins) -> [(descr, obs)] for its polls
+    (+ the whole-history case for the execution-model oracle)"""
     h = c["hist"]
-    polls, _ = run_one_history(h["nodes"], h["cfg"], h.get("plan") or [[] for _ in h["nodes"]],
-                               random.Random(0), h.get("profile", "mixed"), len(h["pins"]),
-                               scripted_pins=h["pins"])
+    polls, ecase = run_one_history(h["nodes"], h["cfg"], h.get("plan") or [[] for _ in h["nodes"]],
+                                   random.Random(0), h.get("profile", "mixed"), len(h["pins"]),
+                                   scripted_pins=h["pins"])
     for d, _o in polls:
         d["stream"] = "history-corpus" if c.get("corpus_file") else "history"
         if c.get("corpus_file"):
             d["corpus_file"] = c["corpus_file"]
+    if want_x:
+        return polls, make_xobs(h["nodes"], h["cfg"], ecase, polls, "corpus", h.get("profile", "mixed"))
     return polls
 
 
@@ -1166,12 +1270,19 @@ def run(ck):
 
     # (a') execution histories: status.csv after every poll (+ stored failing histories first)
     hobs = []
+    xcorpus = []
     for hc in load_corpus_hist():
-        hobs.extend(replay_history(hc))
-    more, hstat = history_polls(rng, THOROUGH_HIST if thorough else QUICK_HIST)
+        hp, hx = replay_history(hc, want_x=True)
+        hobs.extend(hp)
+        if hx is not None:
+            xcorpus.append(hx)
+    more, xobs, hstat = history_polls(rng, THOROUGH_HIST if thorough else QUICK_HIST)
     hobs.extend(more)
+    xobs = xcorpus + xobs
+    hstat["corpus_histories"] = len(xcorpus)
     phase("histories-implementation")
     husable = classify_hist(ck, "C12_hist", hobs)
+    hstat["histories_checked_against_execution_model"] = classify_xhist(ck, "C12_xhist", xobs)
     phase("coq-histories")
     ck.notes["histories"] = hstat
 
@@ -1299,8 +1410,12 @@ def run(ck):
             c, o = obs2[bad[0]]
             return ("C12_ok false on the implementation's table: parsed=%s" % (json.dumps(o["parsed"])[:300],),
                     strip_case(c))
-        hobs2, _ = history_polls(rng2, 300)
+        hobs2, xobs2, _ = history_polls(rng2, 300)
         hobs2 = [(c, o) for c, o in hobs2 if o["error"] is None]
+        before = len(ck.concrete)
+        classify_xhist(ck, "C12_search_x", xobs2)
+        if len(ck.concrete) > before:
+            return ck.concrete[before]
         bad, _ = evaluate("C12_search_h", hobs2, "hcase_monitor", ty=HCASE_TY, lit=g_hcase)
         if bad:
             c, o = hobs2[bad[0]]
@@ -1340,6 +1455,22 @@ def replay(ck, path):
             print("poll %d: status.csv=%r\n  get_status=%s\n  adapter submissions=%s\n  hcase_ok=%s"
                   % (d["poll"], o["text"], json.dumps(o["parsed"])[:400], o["subs"], ok))
             rc = rc or (0 if ok else 1)
+        from harness import exec_harness as XH
+        h = case["hist"]
+        if polls and len(polls) == len(h["pins"]) and all(o["error"] is None for _d, o in polls):
+            xlit = "(%s, %s, %s, %s)" % (XH.g_cfg(h["cfg"]), XH.g_nodes(h["nodes"]),
+                                         common.g_list([XH.g_pin(p) for p in h["pins"]]),
+                                         common.g_list([g_parsed(o["parsed"]) for _d, o in polls]))
+            hdr = HEADER + XHEADER_EXTRA
+            out = common.coq_eval("C12_replay", hdr, "xcase_ok %s" % xlit)
+            okx = "true" in out.split(":")[0]
+            rows = common.coq_eval("C12_replay", hdr,
+                                   "let '(cf, g, pins, _) := %s in map (fun o : ExecRun.obs => snd (fst o)) "
+                                   "(ExecRun.run cf g (init g) pins)" % xlit)
+            print("execution model rows per poll (state, job ids, restarts):", " ".join(rows.split())[-1500:])
+            print("State / Job ID / Number Restarts columns agree with the execution model after every poll "
+                  "(xcase_ok) = %s" % okx)
+            rc = rc or (0 if okx else 1)
         return rc
     if not (isinstance(case, dict) and "nodes" in case and "ops" in case):
         print("replay: %s holds no graph case (kind=%s): %s" % (path, doc.get("kind"), doc.get("what")))
